@@ -191,21 +191,6 @@ ThGen genThMode(vf::Ctx& c, bool extreme) {
   return g;
 }
 
-// Residue of the repaired finding C19-local-overflow: Simplex::fireParameterChanged (local ratio) rescales the running product of the
-// ratios alpha_k = (1-theta_k)/theta_k only AFTER it exceeded 1e100, so one more ratio can still carry it beyond DBL_MAX (needs
-// alpha_k > 1.8e208, i.e. a parameter below 5.6e-209; a subnormal parameter below 1/DBL_MAX does it alone). The margins make the
-// predicate err towards exclusion when the product is within rounding of one of the two thresholds.
-bool localStepOverflow(const vector<double>& th) {
-  LD r = 1;
-  for (double t : th) {
-    LD al = (1.0L - t) / static_cast<LD>(t);
-    r *= al;
-    if (std::max(al, r) > static_cast<LD>(DBL_MAX) * (1 - 1e-9L)) return true;
-    if (r > 1e100L * (1 + 1e-9L)) r = 1;
-  }
-  return false;
-}
-
 bool nearEdge(const vector<double>& th) { for (double t : th) if (t < 1e-6 || t > 1 - 1e-6) return true; return false; }
 bool smallEntry(const vector<double>& p) { for (double x : p) if (x < 1e-6) return true; return false; }
 
@@ -250,7 +235,6 @@ void checkForward(vf::Ctx& c, const vector<double>& got, int method, const vecto
   CHECK(got.size() == n, where << ": getFrequencies() has " << got.size() << " entries, dimension " << n);
   bool ovf = false; vector<LD> ref = refForward(method, th, &ovf);
   if (ovf) c.excludeIfKnown("C19-local-overflow");
-  if (method == 2 && localStepOverflow(th)) c.excludeIfKnown("C19-local-overflow-step");
   LD sum = 0;
   for (size_t i = 0; i < n; ++i) {
     CHECK(got[i] >= 0, where << ": prob(" << i << ") = " << vf::dec(got[i]) << " is not a non-negative number; theta " << showV(th));
@@ -588,7 +572,7 @@ LAW(J_full_range, RC, 14000, 600000, 240, "a coordinate closer than 1e-9 to 0 or
   vector<double> now = readTheta(s);
   for (size_t k = 0; k < m; ++k) CHECK(vf::sameBits(now[k], a[k]), "theta" << k + 1 << " holds " << vf::dec(now[k]) << " after setting " << vf::dec(a[k]));
   vector<double> pa = s.getFrequencies();
-  checkForward(c, pa, g.method, a, "after update");   // a probability vector, each entry relative to the documented formula (known overflow excluded here)
+  checkForward(c, pa, g.method, a, "after update");   // a probability vector, each entry relative to the documented formula 
   // ---- left inverse by the documented formula, relative per coordinate
   vector<LD> refA = refForward(g.method, a);
   vector<Branch> want = refBranches(g.method, refA), got = refBranches(g.method, toLD(pa));
@@ -622,7 +606,6 @@ LAW(J_full_range, RC, 14000, 600000, 240, "a coordinate closer than 1e-9 to 0 or
   CHECK(b[k] >= TMIN && b[k] <= TMAX && b[k] != a[k], "internal: pair generator gave " << vf::dec(b[k]) << " for " << vf::dec(a[k]));
   bool sameObject = c.flag();
   c.desc << "; vs theta" << k + 1 << " = " << vf::dec(b[k]) << " [" << how.str() << (sameObject ? ", same object]" : ", second object]");
-  if (g.method == 2 && localStepOverflow(b)) c.excludeIfKnown("C19-local-overflow-step");
   vector<double> pb;
   Simplex t(static_cast<size_t>(g.n), M, g.allowNull, g.prefix);
   if (sameObject) { s.setParameterValue(thName(k + 1), b[k]); pb = s.getFrequencies(); }
@@ -784,7 +767,6 @@ LAW(O_ordered, RC, 18000, 700000, 500, "n not a power of two with the binary cod
       edge |= nearEdge(th);
       bool ovf = false; vector<LD> pref = refForward(g.method, th, &ovf);
       if (ovf) c.excludeIfKnown("C19-local-overflow");
-      if (g.method == 2 && localStepOverflow(th)) c.excludeIfKnown("C19-local-overflow-step");
       vector<LD> vref = refOrdered(pref);
       const vector<double>& got = os.getFrequencies();
       checkOrderedShape(c, got, n, "after parameter update");
